@@ -22,7 +22,9 @@ from . import cbuild
 
 CSRC = os.path.join(cbuild.CSRC, "trxcon")
 
-ASAN_OPTIONS = "abort_on_error=0:detect_leaks=1:exitcode=99"
+# symbolize=0: the sanitizer's in-process symbolizer costs ~150 ms per report here; frames are
+# resolved afterwards with addr2line instead (class Symbolizer, a few ms, memoised per binary)
+ASAN_OPTIONS = "abort_on_error=0:detect_leaks=1:exitcode=99:symbolize=0"
 UBSAN_OPTIONS = "print_stacktrace=1:halt_on_error=1"
 
 # Automatic variables that trx_if.c reads without having written them (`resp` after a failed
@@ -87,6 +89,69 @@ def build_all(variants=AUTOINIT, sanitize=True):
 	if errors:
 		raise RuntimeError("\n".join(errors))
 	return out
+
+
+class Symbolizer:
+	"""Resolves the "(<binary>+0x<offset>)" frames of an unsymbolized sanitizer report with
+	addr2line and rewrites them the way the sanitizer would have printed them ("in <function>
+	<file>:<line>", inlined frames expanded, innermost first).  Offsets are memoised per binary,
+	so only the first report of a kind costs an addr2line run.  Falls back to the raw text if
+	addr2line is not available."""
+
+	def __init__(self):
+		self.cache = {}
+
+	def _resolve(self, path, offs):
+		missing = [o for o in offs if (path, o) not in self.cache]
+		if missing:
+			try:
+				p = subprocess.run(["addr2line", "-f", "-i", "-a", "-e", path] + missing,
+					stdout=subprocess.PIPE, stderr=subprocess.DEVNULL, text=True, timeout=30)
+				cur = None
+				lines = p.stdout.splitlines()
+				i = 0
+				while i < len(lines):
+					ln = lines[i]
+					if ln.startswith("0x") and ":" not in ln:
+						cur = "0x%x" % int(ln, 16)
+						self.cache[(path, cur)] = []
+						i += 1
+						continue
+					if cur is not None and i + 1 < len(lines):
+						self.cache[(path, cur)].append((ln.strip(), lines[i + 1].strip()))
+					i += 2
+			except Exception:
+				pass
+			for o in missing:
+				self.cache.setdefault((path, o), [])
+
+	def symbolize(self, path, text):
+		marker = "(%s+0x" % path
+		if marker not in text:
+			return text
+		offs = []
+		for ln in text.splitlines():
+			j = ln.find(marker)
+			if j >= 0:
+				o = "0x%x" % int(ln[j + len(marker) - 2:].split(")")[0], 16)
+				if o not in offs:
+					offs.append(o)
+		self._resolve(path, offs)
+		out = []
+		for ln in text.splitlines():
+			j = ln.find(marker)
+			if j < 0:
+				out.append(ln)
+				continue
+			o = "0x%x" % int(ln[j + len(marker) - 2:].split(")")[0], 16)
+			frames = self.cache.get((path, o)) or []
+			if not frames or " in " in ln[:j]:
+				out.append(ln)
+				continue
+			head = ln[:j].rstrip()
+			for func, where in frames:
+				out.append("%s in %s %s" % (head, func, where))
+		return "\n".join(out)
 
 
 class Crashed(Exception):
@@ -203,9 +268,10 @@ class Reply(list):
 
 
 class TrxconProc:
-	def __init__(self, path, timeout=20.0, leak_check=True, extra_env=None):
+	def __init__(self, path, timeout=20.0, leak_check=True, extra_env=None, symbolizer=None):
 		self.path = path
 		self.timeout = timeout
+		self.symbolizer = symbolizer if symbolizer is not None else Symbolizer()
 		self.requests = 0
 		self._buf = b""
 		self._dead = None
@@ -232,7 +298,8 @@ class TrxconProc:
 			self._errf.flush()
 			size = self._errf.seek(0, 2)
 			self._errf.seek(max(0, size - limit))
-			return self._errf.read().decode("utf-8", "replace")
+			text = self._errf.read().decode("utf-8", "replace")
+			return self.symbolizer.symbolize(self.path, text) if text else text
 		except Exception as e:  # pragma: no cover
 			return "<stderr unavailable: %r>" % (e,)
 
